@@ -443,6 +443,17 @@ def finish(ev, t0, nviol, mod, aud, facts, recs, kf_lines, notes):
         "known_findings_replayed": kf_lines,
         "notes": notes,
     }
+    # histories: how much of what the implementation did was compared step by step with the model (the model answers
+    # "unmodelled" where its glue does not describe a situation; the comparison stops there)
+    hist = []
+    for r in recs:
+        i, m = r.get("impl"), r.get("model")
+        if isinstance(i, dict) and isinstance(i.get("steps"), list) and isinstance(m, dict) and isinstance(m.get("steps"), list):
+            cut = next((k for k, st in enumerate(m["steps"]) if isinstance(st, dict) and "unmodelled" in st), len(m["steps"]))
+            hist.append((len(i["steps"]), min(cut, len(i["steps"]))))
+    if hist:
+        ev["coverage"]["history_steps"] = {"implementation": sum(a for a, _ in hist), "compared_with_model": sum(b for _, b in hist),
+                                           "histories": len(hist), "histories_modelled_to_the_end": sum(1 for a, b in hist if a == b)}
     ev["assumptions"] = mod.ASSUMPTIONS
     ev["violations"] = nviol
     ev["wall_s"] = round(time.time() - t0, 2)
